@@ -1,12 +1,12 @@
 (** C11 - Allocation keys are unambiguous and the API releases what it lists.
-    Property theorems only; proofs are in Proofs/KeysP.v and Proofs/PageP.v.
+    Property theorems only; proofs are in Proofs/KeysP.v, Proofs/PageP.v and Proofs/IpApiP.v.
     [cur_kflags] is the model variant that the correspondence check ties to /repo's current tree
     (both repairs applied: F5 013594f, F6 d6ba6ca); the theorems are about it. *)
 From Coq Require Import List String NArith Permutation Sorted.
 Open Scope string_scope.
 From Galaxy.Base Require Import Strs.
 From Galaxy.Model Require Import Keys Page IpApi.
-From Galaxy.Proofs Require Import KeysP PageP.
+From Galaxy.Proofs Require Import KeysP PageP IpApiP.
 Import ListNotations.
 
 (** Hypotheses on names are WEAKER than DNS-1123: [name_ok s] = non-empty and '_'-free;
@@ -69,6 +69,45 @@ Theorem release_exact_owner : forall p kp q kq found,
   pd_ns p = pd_ns q /\ ko_app kp = ko_app kq /\ pd_name p = pd_name q.
 Proof. exact release_exact_owner_l. Qed.
 Print Assumptions release_exact_owner.
+
+(** a release request with SEVERAL entries ([post_entries]: handled one after the other, each on its own):
+    nothing is added or re-keyed, and only posted IPs disappear, each only when its current key is the key
+    SOME entry posted with that IP denotes (IP texts of the state pairwise distinct) *)
+Theorem batch_release_exact : forall fl s pods es,
+  (forall a, In a (snd (post_entries fl s pods es)) -> In a s) /\
+  (NoDup (map fst s) ->
+   forall ip key, In (ip, key) s -> ~ In (ip, key) (snd (post_entries fl s pods es)) ->
+                  exists e, In (ip, e) es /\ key = release_key fl e).
+Proof. exact post_entries_exact_l. Qed.
+Print Assumptions batch_release_exact.
+
+(** ... and the list/release round trip holds for such a request in ANY order: when every entry denotes the
+    current key of its IP (for the statefulset entries: with or without appType, by blank_type_is_statefulset)
+    and its pod is not running, then every rearrangement [es'] of the request answers 200 and removes exactly
+    the posted IPs.  The same IP may be posted several times, unless its key is the empty key (a repeated
+    entry finds the IP unallocated, and an unallocated IP posted with the empty key is reported). *)
+Theorem batch_roundtrip_any_order : forall fl s pods es,
+  (forall ip e, In (ip, e) es ->
+     lookup_ip s ip = Some (release_key fl e) /\ releasable e (pod_listed pods e) = true) ->
+  (forall ip e, In (ip, e) es -> is_empty (release_key fl e) = true -> (count_occ str_dec (map fst es) ip <= 1)%nat) ->
+  forall es', Permutation es es' ->
+  post_entries fl s pods es' = (false, filter (fun a => negb (existsb (fun e => str_eqb (fst e) (fst a)) es)) s).
+Proof. exact post_entries_roundtrip_any_order_l. Qed.
+Print Assumptions batch_roundtrip_any_order.
+
+(** met by a request with three app types, the statefulset entry without appType in the middle *)
+Example batch_nonvacuous :
+  option_map ko_key (format_key {| pd_name := L "bare-0"; pd_ns := L "ns1"; pd_owners := []; pd_pool := [] |})
+    = Some (L "NULL_ns1_NULL_bare-0") /\
+  NoDup (map fst ex_state) /\ NoDup (map fst ex_entries) /\
+  Forall (fun x => lookup_ip ex_state (fst x) = Some (release_key cur_kflags (snd x)) /\
+                   releasable (snd x) (pod_listed ex_pods (snd x)) = true /\
+                   is_empty (release_key cur_kflags (snd x)) = false) ex_entries /\
+  e_type (snd (nth 1 ex_entries (L "", convert []))) = [] /\
+  post_entries cur_kflags ex_state ex_pods ex_entries = (false, [(L "10.0.0.4", L "sts_ns1_web_web-1")]) /\
+  post_entries cur_kflags ex_state ex_pods (rev ex_entries) = (false, [(L "10.0.0.4", L "sts_ns1_web_web-1")]).
+Proof. exact post_entries_example. Qed.
+Print Assumptions batch_nonvacuous.
 
 (** paging: for every list, every size in [1, 9999] and up to the documented cap of 100000 pages,
     the pages 0 .. totalPages-1, requested by their decimal number, concatenate to the list itself
